@@ -70,14 +70,18 @@ Print Assumptions C18_double_close_harmless.
 
 (* 3. Read-only (opened or switched): every writer-path method of *DB (Put, Delete, Write of a non-empty batch,
       CompactRange, OpenTransaction, SetReadOnly) returns ErrReadOnly and changes nothing at all; every read
-      method succeeds without touching the storage; no call whatsoever other than Close touches the storage. *)
+      method succeeds without touching the storage; no call other than Close and the Release of an iterator
+      touches the storage (Close of a switched DB may abort in-flight work, releasing an iterator that pins an
+      old version lets the files only it kept alive be removed); on a DB OPENED read-only no call whatsoever
+      adds to the mutation log. *)
 Theorem C18_ro_rejects_writes_serves_reads : forall s d db h m,
   reachable s -> nth_error (dbs s) d = Some db -> is_ro (dmode db) = true ->
   let s' := fst (step s (CApi d h m)) in
   let o := snd (step s (CApi d h m)) in
   (recv m = RDb -> takes_write_lock m = true -> o = ErrReadOnly /\ s' = s) /\
   (recv m = RDb -> db_read m = true -> o = Ok /\ stor s' = stor s) /\
-  (m <> DbClose -> stor s' = stor s).
+  (m <> DbClose -> m <> ItRelease -> stor s' = stor s) /\
+  (dmode db = ROpened -> mlog (stor s') = mlog (stor s)).
 Proof. exact ro_rejects_writes_serves_reads. Qed.
 Print Assumptions C18_ro_rejects_writes_serves_reads.
 
@@ -91,13 +95,14 @@ Proof. exact ro_open_pure. Qed.
 Print Assumptions C18_ro_open_pure.
 
 (* 5. A DB switched to read-only quiesces — PROVED ONLY UNDER THE EXCLUSION dseek = false (seek-triggered
-      compaction disabled): once its background work has drained, no later call sequence (short of a read-write
-      re-open) issues a mutation.
+      compaction disabled): once the iterators obtained earlier have been released and its background work has
+      drained, no later call sequence (short of a read-write re-open) issues a mutation.
       Full statement (does NOT hold for the code, known finding switched-ro-keeps-compacting): the same without
       the hypothesis [dseek db = false]; it is refuted below (C18_ro_quiesces_refuted_with_seeks): after
       SetReadOnly the compaction goroutines keep running and a plain Get schedules a seek compaction. *)
 Theorem C18_ro_quiesces_partial : forall s d db l,
   reachable s -> nth_error (dbs s) d = Some db -> dmode db = RSwitched -> dseek db = false ->
+  iters_released db = true ->
   forallb no_rw_open l = true ->
   let s1 := fst (step s (CDrain d)) in
   mlog (stor (run s1 l)) = mlog (stor s1).
@@ -106,7 +111,8 @@ Print Assumptions C18_ro_quiesces_partial.
 
 Theorem C18_ro_quiesces_refuted_with_seeks :
   exists s d db l,
-    reachable s /\ nth_error (dbs s) d = Some db /\ dmode db = RSwitched /\ forallb no_rw_open l = true /\
+    reachable s /\ nth_error (dbs s) d = Some db /\ dmode db = RSwitched /\ iters_released db = true /\
+    forallb no_rw_open l = true /\
     let s1 := fst (step s (CDrain d)) in
     mlog (stor (run s1 l)) <> mlog (stor s1).
 Proof.
@@ -114,7 +120,7 @@ Proof.
   eexists. exists [CApi 0 0 DbGet; CDrain 0].
   split; [eexists _, _, _, _; reflexivity|].
   split; [vm_compute; reflexivity|].
-  split; [reflexivity|]. split; [reflexivity|].
+  split; [reflexivity|]. split; [reflexivity|]. split; [reflexivity|].
   vm_compute. discriminate.
 Qed.
 Print Assumptions C18_ro_quiesces_refuted_with_seeks.
@@ -204,5 +210,6 @@ Qed.
 (* the exclusion of theorem 5 is satisfiable: a DB switched to read-only with seek compaction disabled *)
 Example C18_ro_quiesces_nonvacuous :
   let s := run (init_state false [] 1%N) [COpen false false; CApi 0 0 DbPut; CApi 0 0 DbSetReadOnly] in
-  reachable s /\ exists db, nth_error (dbs s) 0 = Some db /\ dmode db = RSwitched /\ dseek db = false /\ dbg db = true.
+  reachable s /\ exists db, nth_error (dbs s) 0 = Some db /\ dmode db = RSwitched /\ dseek db = false /\ dbg db = true /\
+                            iters_released db = true.
 Proof. split; [eexists _, _, _, _; reflexivity|]. eexists; vm_compute; repeat split; reflexivity. Qed.
